@@ -163,6 +163,12 @@ Section Seq.
                | [] => (Ok (if full then LFull (lres (cl st)) else LValue a), ps')
                end
       end.
+  (* Pipeline.run since the repair "validate the keyword arguments of Pipeline.run before executing anything" *)
+  Definition crequest_checked (ps : pstate) (o : str) (kw : alist) (full : bool) : result loutcome * pstate :=
+    match run_precheck p o kw with
+    | Err e => (Err e, ps)
+    | Ok _ => crequest ps o kw full
+    end.
 End Seq.
 
 Section SeqEval.
@@ -198,6 +204,22 @@ Section SeqEval.
                    | _, _ => ps1
                    end in
         let '(ps3, l) := run_requests p dagon ps2 t in
+        (ps3, r :: l)
+    end.
+
+  (* the same on the code since the repair "validate the keyword arguments of Pipeline.run before executing
+     anything" (crequest_checked) *)
+  Fixpoint run_requests_checked (p : pipeline) (dagon : bool) (ps : pstate) (rs : list request)
+    : pstate * list (result loutcome) :=
+    match rs with
+    | [] => (ps, [])
+    | (o, kw, full, now) :: t =>
+        let '(r, ps1) := crequest_checked p dagon ps o kw full in
+        let ps2 := match r, now with
+                   | Ok x, true => fst (eval_outcome_p ps1 x)
+                   | _, _ => ps1
+                   end in
+        let '(ps3, l) := run_requests_checked p dagon ps2 t in
         (ps3, r :: l)
     end.
 
